@@ -13,10 +13,12 @@ Theorem C13_redirect_requeues : forall st s sv f inq' mid slot ty rsp p st1 s2,
                  ps_initializing := ps_initializing sv; ps_step := ps_step sv; ps_left := ps_left sv;
                  ps_outq := ps_outq sv; ps_inq := inq'; ps_got := ps_got sv; ps_written := ps_written sv;
                  ps_taken := S (ps_taken sv) |}) (remove_first_inflight s f (inflight st)) in
+  let stm := mark_moved st0 mid slot in
   frag_done st0 mid slot = false -> (ty = RspMoved \/ ty = RspAsk) ->
-  find_pool st0 (parse_moved ty rsp) = Some p -> pool_get st0 p = (st1, Some s2) ->
+  find_pool stm (parse_moved ty rsp) = Some p -> pool_get stm p = (st1, Some s2) ->
   on_reply st s ty rsp = ROk (enqueue_out st1 s2 f) /\
-  clients (enqueue_out st1 s2 f) = clients st /\ msgs (enqueue_out st1 s2 f) = msgs st.
+  clients (enqueue_out st1 s2 f) = clients st /\
+  (forall x, msg_done (enqueue_out st1 s2 f) x = msg_done st x /\ msg_rsp (enqueue_out st1 s2 f) x = msg_rsp st x).
 Proof. exact redirect_requeues. Qed.
 Print Assumptions C13_redirect_requeues.
 
